@@ -35,6 +35,19 @@ PROPS = {
         "assumptions": ["same input space as C04"],
         "explanation": "theorems on the formatter model (Props/C05.v); tie as C04; oracle: both edit lists well-formed, second formatting changes nothing, rewritten posting lines aligned",
     },
+    "C14": {
+        "n": {"quick": 8, "thorough": 48},
+        "shards": 4,
+        "known_bitmask": True,
+        "harness_timeout": 2400,
+        "trusted": [
+            "translator harness/c14extract.go (go/parser + go/types over internal/server, internal/workspace, internal/include of /repo's working tree, re-run on every check): tracked structs = structs with a sync.Mutex / sync.RWMutex field; locations = their fields (fields of sync / atomic types are skipped as internally synchronised) and, separately, what a field points to ('deep'); lock scopes are syntactic (Lock/RLock .. Unlock/RUnlock in statement order, deferred unlocks last to the end of the function, a branch that falls through leaves the intersection of its lock sets); callers' locks are propagated along static call edges to a fixed point; thread kinds by reachability from the exported Server methods (dispatcher), Initialize / SetClient / NewServer (initialisation) and the callees of go statements (background); pointers handed out by accessor methods and local copies of them are followed; NOT seen: function values, interface dispatch, pointers stored into other structs, the analyzer / parser / cli packages' own state",
+            "Model/Locks.v: interleaving machine with reader-writer locks at access granularity; the Go memory model below 'access with lock set' is not modelled; one instance per tracked struct and ONE dispatcher thread (jsonrpc2 serves requests and notifications serially) are assumptions read off the code, as is 'initialize is handled before any background goroutine exists'",
+            "race-detector stress (a -race build of the harness run as child processes) is search, not proof: it supports the translator's table and looks for a failing schedule",
+        ],
+        "assumptions": ["configuration answers of the stress client change only cli.path and maxIncludeDepth (40..44), which do not influence the compared responses", "schedules are those the Go scheduler produces on 16 cores under the race detector with client delays of 0..3 ms"],
+        "explanation": "lockset soundness theorem on the interleaving machine (Props/C14.v); per location Coq decides the discipline on the rows the translator extracted from the current source; no lock across a blocking client request; lock nesting acyclic; stress batches: no race report, hang, crash, or response that differs from the sequential replay",
+    },
     "C08": {
         "n": {"quick": 600, "thorough": 15000},
         "shards": 16,
